@@ -61,6 +61,60 @@ func (s *Signer) InEndpoint(E *ssa.Function, v ssa.Value) ssa.Value {
 	if u, ok := r.(*ssa.UnOp); ok && u.Op == token.MUL {
 		if inner, ok := an.ResolveCell(u.X); ok {
 			r = inner
+		} else if fa, isFA := u.X.(*ssa.FieldAddr); isFA {
+			// a field of a request descriptor the endpoint built for the helper: `req.action` with req a parameter of the helper
+			// and the argument a struct literal of the endpoint whose field is assigned exactly once (and never by the helper)
+			base := fa.X
+			if bu, ok := base.(*ssa.UnOp); ok && bu.Op == token.MUL {
+				if inner, ok := an.ResolveCell(bu.X); ok {
+					base = inner
+				}
+			}
+			if fv, ok := base.(*ssa.FreeVar); ok {
+				if b := an.FreeVarBinding(fv); b != nil {
+					base = b
+				}
+			}
+			if p, ok := base.(*ssa.Parameter); ok && p.Parent() == H {
+				for k, q := range H.Params {
+					if q != p || k >= len(hc.Call.Args) {
+						continue
+					}
+					lit, isAlloc := hc.Call.Args[k].(*ssa.Alloc)
+					if !isAlloc {
+						continue
+					}
+					var val ssa.Value
+					n := 0
+					for _, ref := range *lit.Referrers() {
+						fa2, ok := ref.(*ssa.FieldAddr)
+						if !ok || fa2.Field != fa.Field {
+							continue
+						}
+						for _, r2 := range *fa2.Referrers() {
+							if st, ok := r2.(*ssa.Store); ok && st.Addr == ssa.Value(fa2) {
+								val = st.Val
+								n++
+							}
+						}
+					}
+					helperWrites := false
+					for _, hf := range WithClosures(H) {
+						for _, b := range hf.Blocks {
+							for _, ins := range b.Instrs {
+								if st, ok := ins.(*ssa.Store); ok {
+									if fa3, ok := st.Addr.(*ssa.FieldAddr); ok && fa3.Field == fa.Field && types.Identical(fa3.X.Type(), fa.X.Type()) {
+										helperWrites = true
+									}
+								}
+							}
+						}
+					}
+					if n == 1 && !helperWrites {
+						return val
+					}
+				}
+			}
 		}
 	}
 	if p, ok := r.(*ssa.Parameter); ok && p.Parent() == H {
